@@ -4,6 +4,7 @@ import QibProofs.Lemmas.CompactGeom
 C13 helper lemmas, part 3: the edge strings in normal form (`xyStr`: X on one endpoint, Y on the other, optional
 auxiliary letter), their pointwise letters, and the anticommutation bit of such a string with any other string.
 -/
+set_option linter.unusedSimpArgs false
 namespace Qib.Compact
 open Qib.Pauli Qib.Lattice
 
@@ -107,28 +108,54 @@ theorem anti_xyStr (n a b : Nat) (aux : Option (Nat × Bool)) (q : Fin 4) (R : P
 
 /-! ### the four kinds of oriented edges in normal form -/
 
+/-- coordinates of the auxiliary face of the edge with smaller corner `(x, y)` (`none`: the code's `-1`):
+`x + y` even: the face below a horizontal / right of a vertical edge; odd: the face above resp. to the left -/
+def auxC (n0 n1 : Nat) (horiz : Bool) (x y : Nat) : Option (Nat × Nat) :=
+  if (x + y) % 2 = 0 then (if x + 1 < n0 ∧ y + 1 < n1 then some (x, y) else none)
+  else if horiz then (if 1 ≤ x ∧ x < n0 ∧ y + 1 < n1 then some (x - 1, y) else none)
+  else (if 1 ≤ y ∧ x + 1 < n0 ∧ y < n1 then some (x, y - 1) else none)
+
+theorem auxFace_eq_auxC (n0 n1 : Nat) (horiz : Bool) (x y : Nat) :
+    auxFace n0 n1 horiz x y = (auxC n0 n1 horiz x y).map fun c => fIdx n0 n1 c.1 c.2 := by
+  unfold auxC
+  rcases Nat.mod_two_eq_zero_or_one (x + y) with h | h
+  · rw [auxFace_even _ _ _ _ _ h, if_pos h]; split <;> rfl
+  · have h' : ¬ (x + y) % 2 = 0 := by omega
+    rw [if_neg h']
+    cases horiz
+    · rw [auxFace_odd_v _ _ _ _ h]; simp only [Bool.false_eq_true, if_false]; split <;> rfl
+    · rw [auxFace_odd_h _ _ _ _ h]; simp only [if_true]; split <;> rfl
+
+theorem auxC_faceOK {n0 n1 : Nat} {horiz : Bool} {x y : Nat} {c : Nat × Nat} (h : auxC n0 n1 horiz x y = some c) :
+    FaceOK n0 n1 c.1 c.2 := by
+  unfold auxC at h
+  unfold FaceOK
+  split at h
+  · split at h
+    · cases h; simp only; omega
+    · cases h
+  · split at h
+    · split at h
+      · cases h; simp only; omega
+      · cases h
+    · split at h
+      · cases h; simp only; omega
+      · cases h
+
 /-- auxiliary entry of an edge with smaller corner `(x, y)`: its qubit and letter (`Y` on horizontal edges) -/
 def auxOf (n0 n1 : Nat) (horiz : Bool) (x y : Nat) : Option (Nat × Bool) :=
   (auxFace n0 n1 horiz x y).map fun f => (f, horiz)
 
 /-- letters of the horizontal edge `(x, y) – (x, y+1)`: `Y` on the left end in even rows, on the right end in odd rows -/
 def hBody (n0 n1 x y : Nat) : PS :=
-  if x % 2 = 0 then xyStr (ofcNsites n0 n1) (vIdx n1 x (y + 1)) (vIdx n1 x y) (auxOf n0 n1 true x y) 0
-  else xyStr (ofcNsites n0 n1) (vIdx n1 x y) (vIdx n1 x (y + 1)) (auxOf n0 n1 true x y) 0
+  xyStr (ofcNsites n0 n1) (vIdx n1 x (y + 1 - x % 2)) (vIdx n1 x (y + x % 2)) (auxOf n0 n1 true x y) 0
 
 /-- letters of the vertical edge `(x, y) – (x+1, y)`: `Y` on the upper end in even columns, on the lower end in odd columns -/
 def vBody (n0 n1 x y : Nat) : PS :=
-  if y % 2 = 0 then xyStr (ofcNsites n0 n1) (vIdx n1 (x + 1) y) (vIdx n1 x y) (auxOf n0 n1 false x y) 0
-  else xyStr (ofcNsites n0 n1) (vIdx n1 x y) (vIdx n1 (x + 1) y) (auxOf n0 n1 false x y) 0
+  xyStr (ofcNsites n0 n1) (vIdx n1 (x + 1 - y % 2) y) (vIdx n1 (x + y % 2) y) (auxOf n0 n1 false x y) 0
 
 theorem neg_xyStr (n a b : Nat) (aux : Option (Nat × Bool)) : neg (xyStr n a b aux 0) = xyStr n a b aux 2 := by
   unfold xyStr; split <;> rfl
-
-theorem xyStr_of_aux (n a b : Nat) (q : Fin 4) (o : Option Nat) (isY : Bool) :
-    (match o with
-      | some f => setL (two n a b q) f isY true
-      | none => two n a b q) = xyStr n a b (o.map fun f => (f, isY)) q := by
-  cases o <;> rfl
 
 /-- `(x, y) → (x, y+1)` -/
 theorem edgeStr_right (n0 n1 x y : Nat) :
@@ -138,7 +165,8 @@ theorem edgeStr_right (n0 n1 x y : Nat) :
   have e2 : y < y + 1 := by omega
   rcases Nat.mod_two_eq_zero_or_one x with h | h <;>
     simp only [edgeStr, edgeCore, hBody, auxOf, h, e1, e2, hmin, neg_xyStr, beq_self_eq_true, if_true, Nat.min_self,
-      and_false, and_true, or_false, false_or, if_false, Nat.zero_ne_one, Nat.one_ne_zero, false_and] <;>
+      and_false, and_true, or_false, false_or, if_false, Nat.zero_ne_one, Nat.one_ne_zero, false_and,
+      Nat.sub_zero, Nat.add_zero, Nat.add_sub_cancel] <;>
     cases auxFace n0 n1 true x y <;> rfl
 
 /-- `(x, y+1) → (x, y)` -/
@@ -149,7 +177,8 @@ theorem edgeStr_left (n0 n1 x y : Nat) :
   have e2 : y < y + 1 := by omega
   rcases Nat.mod_two_eq_zero_or_one x with h | h <;>
     simp only [edgeStr, edgeCore, hBody, auxOf, h, e1, e2, hmin, neg_xyStr, beq_self_eq_true, if_true, Nat.min_self,
-      and_false, and_true, or_false, false_or, if_false, Nat.zero_ne_one, Nat.one_ne_zero, false_and, or_true, true_or] <;>
+      and_false, and_true, or_false, false_or, if_false, Nat.zero_ne_one, Nat.one_ne_zero, false_and, or_true, true_or,
+      Nat.sub_zero, Nat.add_zero, Nat.add_sub_cancel] <;>
     cases auxFace n0 n1 true x y <;> rfl
 
 /-- `(x, y) → (x+1, y)` -/
@@ -161,7 +190,7 @@ theorem edgeStr_down (n0 n1 x y : Nat) : edgeStr n0 n1 x y (x + 1) y = vBody n0 
   have e2 : x < x + 1 := by omega
   rcases Nat.mod_two_eq_zero_or_one y with h | h <;>
     simp only [edgeStr, edgeCore, vBody, auxOf, h, e1, e2, hmin, hne, hb, neg_xyStr, if_true, Nat.min_self,
-      if_false, Nat.zero_ne_one, Nat.one_ne_zero] <;>
+      if_false, Nat.zero_ne_one, Nat.one_ne_zero, Nat.sub_zero, Nat.add_zero, Nat.add_sub_cancel] <;>
     cases auxFace n0 n1 false x y <;> rfl
 
 /-- `(x+1, y) → (x, y)` -/
@@ -173,7 +202,7 @@ theorem edgeStr_up (n0 n1 x y : Nat) : edgeStr n0 n1 (x + 1) y x y = neg (vBody 
   have e2 : x < x + 1 := by omega
   rcases Nat.mod_two_eq_zero_or_one y with h | h <;>
     simp only [edgeStr, edgeCore, vBody, auxOf, h, e1, e2, hmin, hne, hb, neg_xyStr, if_true, Nat.min_self,
-      if_false, Nat.zero_ne_one, Nat.one_ne_zero] <;>
+      if_false, Nat.zero_ne_one, Nat.one_ne_zero, Nat.sub_zero, Nat.add_zero, Nat.add_sub_cancel] <;>
     cases auxFace n0 n1 false x y <;> rfl
 
 end Qib.Compact
